@@ -5,7 +5,8 @@
    output line: OK | FAIL <gate>[,<gate>] ; then flags (refined, nonid, n=.., labels=..)
    gates: exact = reported pairs are exactly the model's pairs below the output size (verified rel_same);
           size  = size() of the returned relation equals the requested output size;
-          badcase = the generated input violates the engine's documented preconditions (generator error) *)
+          badcase = the generated input violates the engine's documented preconditions (generator error);
+   drift (algo=DRIFT): the extracted models of the refinement algorithm (hhk_sim, hhkc_sim) disagree with the functional model *)
 open Ex_c16
 open Common_c16
 
@@ -49,9 +50,16 @@ let () = each_line (fun l ->
     done;
     if !last <> n then failwith "model: the group for the full output size is missing";
     if kind = "ltsd" then begin expect tr "F"; group n end;
+    (* (A) models of the refinement algorithm (remove sets + queue, and the same with counters), small systems only: drift *)
+    let algo =
+      if n > 9 || ne > 24 then "na" else begin
+        let fuel = nat_of_int 3000 in
+        let same r = match r with Some r' -> rel_same r' model | None -> false in
+        if same (hhk_sim es true fuel nn part brel) && same (hhkc_sim es true fuel nn part brel) && same (hhkc_sim es false fuel nn part brel)
+        then "ok" else "DRIFT" end in
     let labels = List.length (List.sort_uniq compare (List.map (fun ((_, a), _) -> int_of_n a) es)) in
     let offdiag = List.exists (fun (a, b) -> a <> b) model in
     (if !fails = [] then "OK" else "FAIL " ^ String.concat "," !fails)
     ^ (if List.length model < List.length init then " refined" else " unrefined")
     ^ (if offdiag then " nonid" else " id")
-    ^ Printf.sprintf " n=%d labels=%d edges=%d blocks=%d kind=%s" n labels ne (List.length part) kind)
+    ^ Printf.sprintf " n=%d labels=%d edges=%d blocks=%d kind=%s algo=%s" n labels ne (List.length part) kind algo)
